@@ -13,7 +13,8 @@ NumVals  == { V(<<r>>) : r \in 0..4 }
 SeqVals  == { V(s) : s \in {<<>>, <<0>>, <<1>>, <<1, 0>>, <<1, 1>>, <<1, 2>>, <<2>>, <<2, 1>>, <<2, 1, 0>>} }
 BoolVals == { V(<<0>>), V(<<1>>) }
 To1Vals  == { Ids(<<>>), Ids(<<"a">>), Ids(<<"b">>) }
-ToNVals  == { Ids(<<>>), Ids(<<"a">>), Ids(<<"a", "b">>), Ids(<<"b", "a">>), Ids(<<"a", "c">>), Ids(<<"a", "b", "c">>) }
+ToNVals  == { Ids(<<>>), Ids(<<"a">>), Ids(<<"a", "b">>), Ids(<<"b", "a">>), Ids(<<"a", "c">>), Ids(<<"a", "b", "c">>),
+              Ids(<<"c", "d">>), Ids(<<"d", "c">>) }   \* (the driver's ids make {a, b} and {c, d} join to the same text)
 Ops == {"=", "!=", "<", "<=", ">", ">=", "in", "has", "nope"}
 
 ASSUME \A cls \in {"num", "seq"} : LET U == IF cls = "num" THEN NumVals ELSE SeqVals IN
